@@ -1,6 +1,7 @@
 import L4.Proofs.Conn
 import L4.Matchers.Small
 import L4.Matchers.Winbox
+import L4.Proofs.Winbox
 import L4.Matchers.Wireguard
 import L4.Matchers.More
 /-!
@@ -10,8 +11,9 @@ import L4.Matchers.More
   buffer, and `unfreeze` restores the cursor (any matcher, shipped or third-party);
 * verdict stability and fragmentation safety, proved once for **every** `ReadFull`-only matcher program and instantiated
   for ssh, xmpp, postgres, socks4, socks5, proxy_protocol, regexp, tls;
-* the exact-length matchers (rdp, dns/tcp, openvpn/tcp, winbox) reject trailing data by design; for WinBox the
-  two-chunk case violates fragmentation safety on the current tree (known finding; witness below).
+* the exact-length matchers (rdp, dns/tcp, openvpn/tcp, winbox) reject trailing data by design; for WinBox (the only
+  matcher that reads with `io.ReadAtLeast`) fragmentation safety and the finality of `no` are proved separately, for every
+  configuration and input; the matcher of the previous revision violated the former (witness below).
 -/
 namespace L4.C06
 open L4 L4.M L4.Prog
@@ -107,17 +109,37 @@ example : (Wireguard.matcher 0).run ([1, 0, 0, 0] ++ List.replicate 144 0) = .ye
     (Wireguard.matcher 0).run ([1, 0, 0, 0] ++ List.replicate 145 0) = .no := by
   constructor <;> decide +kernel
 
-/-- **Known finding (current tree)**: the WinBox matcher rejects a fragment of a two-chunk message that it accepts whole.
-The user name has 222 bytes (payload 256 bytes = one full chunk + one byte). -/
+/-! ### WinBox: one or two chunks, read with `io.ReadAtLeast` -/
+
+/-- **WinBox, fragmentation safety**: a message that matches when delivered whole is never rejected on a proper prefix —
+the matcher asks for more data (every configuration, every byte string, one- and two-chunk messages). -/
+theorem winbox_fragment_safe (cfg : Winbox.Cfg) (bs : Bytes) (h : (Winbox.matcher cfg).run bs = .yes)
+    (k : Nat) (hk : k < bs.length) : (Winbox.matcher cfg).run (bs.take k) = .more := by
+  rw [Winbox.run_eq_verdict] at h ⊢
+  exact Winbox.verdict_fragment_safe cfg bs h k hk
+
+/-- **WinBox, `no` is final**: a `no` on some prefix remains `no` on every longer prefix -/
+theorem winbox_no_stable (cfg : Winbox.Cfg) (pre ext : Bytes) (h : (Winbox.matcher cfg).run pre = .no) :
+    (Winbox.matcher cfg).run (pre ++ ext) = .no := by
+  rw [Winbox.run_eq_verdict] at h ⊢
+  exact Winbox.verdict_no_stable cfg pre ext h
+
+/-- a two-chunk message: the user name has 222 bytes (payload 256 bytes = one full chunk + one byte) -/
 def winboxCfg : Winbox.Cfg := { standard := true, romon := true, username := [], hasRe := false, re := fun _ => true }
 def winboxTwoChunk : Bytes :=
   [255, 6] ++ List.replicate 222 97 ++ [0] ++ List.replicate 32 7 ++ [255 - 254, 255] ++ [1]
 
 set_option maxRecDepth 100000 in
-/-- the whole 293-byte message matches, its 258-byte prefix (second chunk header seen, body missing) is rejected -/
-theorem winbox_fragment_rejected_violation :
-    (Winbox.matcher winboxCfg).run winboxTwoChunk = .yes ∧
-    (Winbox.matcher winboxCfg).run (winboxTwoChunk.take 258) = .no := by
-  constructor <;> decide +kernel
+/-- non-vacuity: the two-chunk message matches, so `winbox_fragment_safe` speaks about its 259 proper prefixes -/
+example : (Winbox.matcher winboxCfg).run winboxTwoChunk = .yes := by decide +kernel
+
+set_option maxRecDepth 100000 in
+/-- **Witness of the repaired defect**: the matcher of the previous revision accepted the whole two-chunk message but
+answered `no` on its 258-byte prefix (second chunk header seen, body missing); the current one answers "need more". -/
+theorem winbox_fragment_rejected_before_repair :
+    (Winbox.matcherOld winboxCfg).run winboxTwoChunk = .yes ∧
+    (Winbox.matcherOld winboxCfg).run (winboxTwoChunk.take 258) = .no ∧
+    (Winbox.matcher winboxCfg).run (winboxTwoChunk.take 258) = .more := by
+  refine ⟨?_, ?_, ?_⟩ <;> decide +kernel
 
 end L4.C06
